@@ -34,6 +34,10 @@ func (ks KeySet) Foreach(fn func(Key)) {
 }
 
 func (ks KeySet) Exists(k Key) bool {
+	if ks.head == nil {
+		// Empty key set. The nil head must not match an empty key.
+		return false
+	}
 	if ks.head.Equal(k) {
 		return true
 	}
